@@ -5,6 +5,9 @@ Union-find (C05): the well-formedness predicates `graphLike` / `closedGraph` of
 
 * `closedGraph_incMat`          every column incident to exactly two rows, two different rows
                                 share at most one column ⇒ `closedGraph`;
+* `closedMultigraph_incMat`     every column incident to exactly two rows, two different rows
+                                share fewer than 256 columns ⇒ `closedMultigraph`;
+* `countP_contains_le`          a duplicate-free list meets a list `L` in at most `L.length` members;
 * `countP_eq_two_of_ends`       "exactly two" from an explicit pair of end points;
 * `countP_le_one_of_unique`     "at most one" from uniqueness;
 * `not_graphLike_of_parallel`   two rows sharing two columns ⇒ not `graphLike`.
@@ -143,13 +146,83 @@ theorem closedGraph_incMat {α β : Type} (V : List α) (Q : List β) (inc : α 
   · intro q hq
     rw [hcnt q hq]; omega
 
+/-- **incidence matrices of 2-regular-column structures are closed multigraphs**: every column
+    incident to exactly two rows; two different rows may share several columns (parallel
+    edges), fewer than 256 -/
+theorem closedMultigraph_incMat {α β : Type} (V : List α) (Q : List β) (inc : α → β → Bool)
+    (hV : V ≠ []) (hnd : V.Nodup)
+    (hcol : ∀ q ∈ Q, V.countP (fun v => inc v q) = 2)
+    (hpair : ∀ v ∈ V, ∀ w ∈ V, v ≠ w → Q.countP (fun q => inc v q && inc w q) < 256) :
+    closedMultigraph (incMat V Q inc) = true := by
+  have hn := ncols_incMat V Q inc hV
+  have hm := incMat_length V Q inc
+  have hcnt : ∀ q (hq : q < Q.length),
+      cnt (incMat V Q inc).length (fun s => hb (incMat V Q inc) s q) = 2 := by
+    intro q hq
+    rw [hm, cnt_eq_countP V _ (fun v => inc v Q[q]) (fun i hi => hb_incMat V Q inc i q hi hq)]
+    exact hcol _ (List.getElem_mem hq)
+  unfold closedMultigraph multigraphLike
+  simp only [Bool.and_eq_true, List.all_eq_true, decide_eq_true_eq, List.mem_range,
+    Bool.or_eq_true, bne_iff_ne, ne_eq]
+  rw [hn]
+  refine ⟨⟨⟨?_, ?_⟩, ?_⟩, ?_⟩
+  · intro r hr
+    unfold incMat at hr
+    rw [List.mem_map] at hr
+    obtain ⟨v, _, rfl⟩ := hr
+    refine ⟨by simp, ?_⟩
+    intro x hx
+    rw [List.mem_map] at hx
+    obtain ⟨q, _, rfl⟩ := hx
+    split <;> omega
+  · intro q hq
+    rw [hcnt q hq]; omega
+  · intro i hi j hj
+    rw [hm] at hi hj
+    by_cases hij : i = j
+    · exact Or.inl hij
+    · right
+      rw [← hn, hn, cnt_eq_countP Q _ (fun q => inc V[i] q && inc V[j] q) (fun q hq => by
+        rw [hb_incMat V Q inc i q hi hq, hb_incMat V Q inc j q hj hq])]
+      refine hpair _ (List.getElem_mem hi) _ (List.getElem_mem hj) ?_
+      intro h
+      exact hij ((List.Nodup.getElem_inj_iff hnd).mp h)
+  · intro q hq
+    rw [hcnt q hq]; omega
+
+theorem countP_or_le {β : Type} (p r : β → Bool) : ∀ (Q : List β),
+    Q.countP (fun q => p q || r q) ≤ Q.countP p + Q.countP r
+  | [] => by simp
+  | b :: Q => by
+    have ih := countP_or_le p r Q
+    rw [List.countP_cons, List.countP_cons, List.countP_cons]
+    cases p b <;> cases r b <;> simp <;> omega
+
+/-- a duplicate-free list has at most `L.length` members in `L` -/
+theorem countP_contains_le {β : Type} [BEq β] [LawfulBEq β] (Q : List β) (hnd : Q.Nodup) :
+    ∀ (L : List β), Q.countP (fun q => L.contains q) ≤ L.length
+  | [] => by simp
+  | a :: L => by
+    have ih := countP_contains_le Q hnd L
+    have h0 : (fun q => (a :: L).contains q) = (fun q => (q == a) || L.contains q) := by
+      funext q; exact List.contains_cons
+    have h1 := countP_or_le (fun q => q == a) (fun q => L.contains q) Q
+    have h2 : Q.countP (fun q => q == a) ≤ 1 := by
+      apply countP_le_one_of_unique Q _ hnd
+      intro x _ y _ hx hy
+      rw [beq_iff_eq] at hx hy
+      rw [hx, hy]
+    rw [h0]
+    simp only [List.length_cons]
+    omega
+
 /-- two different rows sharing two different columns: not graph-like -/
 theorem not_graphLike_of_parallel (H : Mat) (i j q q' : Nat) (hij : i ≠ j) (hq : q ≠ q')
     (h1 : hb H i q = true) (h2 : hb H j q = true) (h3 : hb H i q' = true)
     (h4 : hb H j q' = true) : graphLike H = false := by
   cases h : graphLike H
   · rfl
-  · exact absurd ((graphLike_ok h).1.simple i j q q' hij h1 h2 h3 h4) hq
+  · exact absurd (graphLike_simple h i j q q' hij h1 h2 h3 h4) hq
 
 /-- parallel edges of an incidence matrix, by members -/
 theorem not_graphLike_incMat {α β : Type} [DecidableEq α] [DecidableEq β] (V : List α)
